@@ -160,5 +160,7 @@ def main(tier):
             js.append({"program": p_, "families": ["task", "resource", "constraint"], "family": "interaction:" + lab.split("/")[2]})
     if lvl == "deep":
         js = common.widen(js, by=(1, 2))
-    js += common.staged(js, stride=5 if tier == "quick" else 2, kinds=("solve", "init"))
+    base = list(js)
+    js += common.staged(base, stride=5 if tier == "quick" else 2, kinds=("solve", "init"))
+    js += common.early(base, stride=6 if tier == "quick" else 3)
     return common.run_space_check("C04", tier, js, RULE, ASSUME, budget_s=480 if tier == "quick" else 3000)
